@@ -83,6 +83,23 @@ theorem pong_same_token (c : Client) (tok : Bytes) (h : clean tok) :
       ∃ l', parseLine c.ext (lit "PONG :" ++ tok) = some l' ∧ l'.args = [tok] :=
   ⟨_, parse_ping c.ext tok, dispatch_ping c _ tok h, _, parse_pong c.ext tok, rfl⟩
 
+/-- every shape RFC 2812 3.7.2 allows (`PING tok`, `PING tok server2`, `:src PING tok :text` …): whatever the source and
+whatever follows, a PING event whose FIRST parameter is `tok` is answered by exactly one line, `PONG :tok` (round 4:
+a change that echoed the last parameter instead passed every single-parameter test) -/
+theorem pong_first_parameter (c : Client) (l : Line) (tok : Bytes) (rest : List Bytes)
+    (hcmd : l.cmd = lit "PING") (hargs : l.args = tok :: rest) (h : clean tok) :
+    (dispatchInternal c l).out = [lit "PONG :" ++ tok] := by
+  have hev : toLower c.ext (lit "PING") = lit "ping" := rfl
+  have hi : Go.Client.intHandler (lit "ping") = some Go.Client.h_PING := rfl
+  have hs : Go.Client.stHandler (lit "ping") = none := rfl
+  have hclean : cutNewLines (lit "PONG :" ++ tok) = lit "PONG :" ++ tok :=
+    cutNewLines_append_clean _ _ (by decide) h
+  have hraw : V.PONG ++ [SP, 58] ++ tok = lit "PONG :" ++ tok := rfl
+  simp only [dispatchInternal, hcmd, hev, hi, hs]
+  split
+  · rename_i h'; simp at h'
+  · simp [Go.Client.h_PING, Go.Client.arg, hargs, Go.Client.emit, exec, rawArgs, hraw, hclean]
+
 /-- the ping goroutine exists exactly when the connection was made with client pings on (`PingFreq > 0`, the
 `some` case of `postConnect`'s branch; fact `shape_Conn_postConnect`), and the wait group counts it -/
 theorem ping_goroutine_iff (s s' : Go.Life.St) (t : Go.Life.Tid) (ping : Option Nat)
